@@ -457,7 +457,7 @@ theorem Inv3.stepL {s t : St} {ev : Ev} (h : Inv3 s) (hs : PE.stepL s ev = some 
 
 theorem Inv3.step {s t : St} {ev : Ev} (h : Inv3 s) (hs : PE.step s ev = some t) : Inv3 t := by
   cases ev <;> simp only [PE.step] at hs <;>
-    first | exact h.stepEnv hs | exact h.stepP hs | exact h.stepE hs | exact h.stepG hs | exact h.stepL hs
+    first | exact h.stepEnv hs | exact h.stepP hs | exact h.stepE hs | exact h.stepG hs | exact h.stepL hs | exact (stepD_eq hs) ▸ h
 
 end Terway.PE
 
